@@ -244,3 +244,15 @@ _R13 = {
 for _k, (_t, _l) in _R13.items():
     _a, _b, _c = CLAIMED[_k]
     CLAIMED[_k] = (_a + _t, _b + _l, _c)
+
+_R14 = {
+ "C03": ("; no reviewed exception left on IMergeSequenceBatch (IT-4 decides it)", ""),
+ "C05": ("; no reviewed exception left in PV", ""),
+ "C10": ("; u read as t by the Go re-alignment (UT); masks applied after the shift, obligatory positions treated alike by the initial states, the deletion and the insertion (MI 3, 4)", ""),
+ "C11": ("; window bounded before the int32 conversion (I32), --max-length refused below 1 (RQ)", ""),
+ "C15": ("; index levels not cut at the length of the reference (IXL)", " Also decides that the bound of the recorded levels does not depend on the length of the indexed sequence."),
+ "C19": ("; ties of HaviestPath broken on the length of the walk (HW 4), crossing slice bounds tested (SLB)", ""),
+}
+for _k, (_t, _l) in _R14.items():
+    _a, _b, _c = CLAIMED[_k]
+    CLAIMED[_k] = (_a + _t, _b + _l, _c)
